@@ -11,7 +11,7 @@ MANIFEST = dict(
     engine="e2e", category="exploration",
     technique="runtime monitoring of the real binary: file-tree and log-meaning snapshots around each tool, differential build against a "
               "pristine copy, predicted vs executed commands, structural JSON validation and round trip",
-    text="On generated trees in assorted states (never built, built, built+changes, after a failed build) each of -n, -t commands, inputs, "
+    text="(Round 10: the statement that regenerates the manifest may have order-only inputs / validations with work to do while the manifest itself is current; -n must go on to list the real build.) On generated trees in assorted states (never built, built, built+changes, after a failed build) each of -n, -t commands, inputs, "
          "multi-inputs, query, targets, rules, graph, compdb, compdb-targets, deps, missingdeps is run: no build command may execute "
          "(vtool event log empty), every file keeps name, content and mtime, the lock file is absent, and the MEANING of .ninja_log / "
          ".ninja_deps (independent parsers) is unchanged. Then the real build runs in the probed tree and in a pristine copy: same "
